@@ -41,7 +41,7 @@ def _m():
 
 class Vocab(object):
     def __init__(self, nvars=4, flags=2, small=True, mem=True, calls=False, rich=False, ncounters=3,
-                 exits=("ret", "reg", "loc", "int"), mem_bases=("sp", "data", "abs"), slices=True):
+                 exits=("ret", "reg", "loc", "int"), mem_bases=("sp", "data", "abs"), slices=True, observe=0):
         m = _m()
         self.data = [m.ExprId(n, 32) for n in ("EAX", "EBX", "ECX", "EDX")[:nvars]]
         self.flags = [m.ExprId(n, 1) for n in ("zf", "cf")[:flags]]
@@ -56,6 +56,9 @@ class Vocab(object):
         self.exits = list(exits)
         self.mem_bases = list(mem_bases)
         self.slices = slices
+        # observe = n > 0: with probability 1/n every exit block of a graph first stores all the variables to
+        # fixed absolute cells (0x2000 + 4 * i), which makes every register's final value a memory effect
+        self.observe = observe
 
     def vars(self):
         return self.data + self.flags + self.small
@@ -273,6 +276,16 @@ def call_blk(draw, voc):
             (voc.sp, m.ExprOp('call_func_stack', addr, voc.sp))]
 
 
+def observer_blk(voc):
+    """one AssignBlock storing every variable and counter to its own absolute cell"""
+    m = _m()
+    pairs = []
+    for i, v in enumerate(voc.vars() + voc.counters):
+        src = v if v.size == 32 else m.ExprOp("zeroExt_32", v)
+        pairs.append((m.ExprMem(_int(0x2000 + 4 * i, 32), 32), src))
+    return pairs
+
+
 # ----------------------------------------------------------------------------------------------
 # structured graphs
 
@@ -292,6 +305,7 @@ class _Builder(object):
         self.free_counters = list(voc.counters)
         self.used_shapes = []
         self.exits = []          # indexes of locations without block
+        self.observe = bool(voc.observe) and draw(st.integers(1, voc.observe)) == 1
         self.active = []         # counters of the enclosing loops
 
     def new_loc(self):
@@ -434,6 +448,8 @@ class _Builder(object):
         draw, voc, m = self.draw, self.voc, _m()
         kind = draw(st.sampled_from(voc.exits))
         pre = self.body((0, 1))
+        if self.observe:
+            pre = pre + [observer_blk(voc)]
         post = getattr(self, "post_use", None)
         if post and draw(st.booleans()):
             a, b = post
@@ -596,6 +612,51 @@ def dominators(succ, head):
 
 
 # ----------------------------------------------------------------------------------------------
+# SSA helper
+
+def ssa_copy_propagate(cfg):
+    """On a valid SSA graph, replace every use of x (ordinary uses and memory pointers, not Phi arguments) by y when
+    the single definition of x is the plain copy `x = y` of another identifier (chains resolved; the copies
+    themselves stay in place).  Value preserving on SSA: y has one definition, which dominates the copy, which
+    dominates every use of x.  -> number of identifiers replaced"""
+    import miasm.expression.expression as m
+    from miasm.ir.ir import IRBlock, AssignBlock
+    copies = {}
+    for blk in cfg.blocks.values():
+        for ab in blk:
+            for d, s_ in ab.items():
+                if d.__class__.__name__ == "ExprId" and d.name != "IRDst" and s_.__class__.__name__ == "ExprId" and s_.name != "IRDst" and d != s_:
+                    copies[d] = s_
+
+    def root(v):
+        seen = set()
+        while v in copies and v not in seen:
+            seen.add(v)
+            v = copies[v]
+        return v
+    repl = {v: root(v) for v in copies}
+    repl = {k: v for k, v in repl.items() if k != v}
+    if not repl:
+        return 0
+    for lk, blk in list(cfg.blocks.items()):
+        new = []
+        for ab in blk:
+            out = {}
+            for d, s_ in ab.items():
+                if d.__class__.__name__ == "ExprMem":
+                    d = m.ExprMem(d.ptr.replace_expr(repl), d.size)
+                if not (s_.__class__.__name__ == "ExprOp" and s_.op == "Phi"):
+                    # Phi arguments are left alone, as PropagateExpressions does (UnSSADiGraph requires them to
+                    # be identifiers defined in the graph)
+                    s_ = s_.replace_expr(repl)
+                out[d] = s_
+            new.append(AssignBlock(out, ab.instr))
+        cfg.blocks[lk] = IRBlock(cfg.loc_db, lk, new)
+    return len(repl)
+
+
+
+# ----------------------------------------------------------------------------------------------
 # logging interpreter
 
 def expr_ids(e, out=None, in_mem=False, mems=None):
@@ -649,6 +710,8 @@ class LoggedRun(object):
     def __init__(self):
         self.path = []
         self.events = []        # ("w", addr, nbytes, value) / ("call", op, argvalues...) grouped per AssignBlock
+        self.effective = []     # the same without the writes that store the value the cells already hold
+        self.final_mem = {}     # (pointer width, address) -> byte, for every byte written
         self.reason = None
         self.dst = None
         self.last_def = {}      # identifier name -> sequence number of its last assignment
@@ -672,6 +735,7 @@ def run_logged(ircfg, head, state, max_steps=4000, irdst_name="IRDst", irdst_siz
     run = LoggedRun()
     cur = head
     steps = 0
+    pristine = state.copy()
     while True:
         blk = ircfg.blocks.get(cur)
         if blk is None:
@@ -693,10 +757,23 @@ def run_logged(ircfg, head, state, max_steps=4000, irdst_name="IRDst", irdst_siz
             nw = len(state.writes)
             irinterp.run_assignblk(ab, state)
             steps += 1
+            eff = [e for e in ev]
             for pw, addr, n, val, _ in state.writes[nw:]:
                 ev.append(("w", addr, n, val))
+                changed = False
+                for j in range(n):
+                    k = (pw, (addr + j) & mask(pw))
+                    old = run.final_mem[k] if k in run.final_mem else pristine.read_mem(pw, k[1], 1)
+                    nb = (val >> (8 * j)) & 0xff
+                    if old != nb:
+                        changed = True
+                    run.final_mem[k] = nb
+                if changed:
+                    eff.append(("w", addr, n, val))
             ev.sort()
+            eff.sort()
             run.events.extend(ev)
+            run.effective.extend(eff)
             run.nassign += 1
             for d, _ in pairs:
                 t = d.arg if d.__class__.__name__ == "ExprSlice" else d
